@@ -30,8 +30,14 @@ func c09catalogue(r *simcore.RNG, n int) []c09sig {
 		switch r.Intn(10) {
 		case 0, 1, 2, 3, 4:
 			s = c09sig{"mcu", pick(r, model3Names), pick(r, []string{"tri", "stl", "3mf"}), pick(r, []int{7, 9, 11, 12, 14, 16})}
+			if r.Intn(5) == 0 {
+				s.model = pick(r, model3Variants)
+			}
 		case 5, 6:
 			s = c09sig{"mco", pick(r, model3Names), pick(r, []string{"tri", "stl", "3mf"}), pick(r, []int{8, 12, 16})}
+			if r.Intn(3) == 0 {
+				s.model = pick(r, model3Variants)
+			}
 		case 7:
 			s = c09sig{pick(r, []string{"msu", "msq"}), pick(r, model2Names), pick(r, []string{"dxf", "svg"}), pick(r, []int{16, 24, 40})}
 		case 8:
@@ -58,6 +64,32 @@ func planC09(tier string, root *simcore.RNG) *plan {
 		nsig, nvar = 70, 3600
 	}
 	cat := c09catalogue(root.Fork(), nsig)
+	// the two states of the models that have setters, for both 3D marching renderers
+	type pairT struct{ a, b c09sig }
+	var pairs []pairT
+	{
+		r := root.Fork()
+		have := map[string]bool{}
+		for _, s := range cat {
+			have[s.key()] = true
+		}
+		for _, kind := range []string{"mco", "mcu"} {
+			for _, v := range model3Variants {
+				base, _ := splitVariant(v)
+				cells := pick(r, []int{7, 8, 9, 10})
+				sink := pick(r, []string{"tri", "stl", "3mf"})
+				a := c09sig{kind, base, sink, cells}
+				b := c09sig{kind, v, sink, cells}
+				for _, s := range []c09sig{a, b} {
+					if !have[s.key()] {
+						have[s.key()] = true
+						cat = append(cat, s)
+					}
+				}
+				pairs = append(pairs, pairT{a, b}, pairT{b, a})
+			}
+		}
+	}
 	// canonical executions
 	for _, s := range cat {
 		r := root.Fork()
@@ -115,6 +147,38 @@ func planC09(tier string, root *simcore.RNG) *plan {
 			g = append(g, s.job(id))
 		}
 		sc.Groups = append(sc.Groups, g)
+		// a program that keeps its renderer values (and its model, changed through
+		// setters between renders) in variables: every job takes them from the
+		// episode's pool; the history then renders the same base model in two states
+		if r.Intn(3) == 0 {
+			for gi := range sc.Groups {
+				for ji := range sc.Groups[gi] {
+					sc.Groups[gi][ji].Share = true
+				}
+			}
+			if r.Intn(2) == 0 {
+				// prepend the other state of a job's model, same renderer and resolution
+				last := sc.Groups[len(sc.Groups)-1][0]
+				base, variant := splitVariant(last.Model)
+				other := ""
+				for _, v := range model3Variants {
+					if b, _ := splitVariant(v); b == base {
+						other = v
+					}
+				}
+				if variant != "" {
+					other = base
+				}
+				if other != "" && (last.Kind == "mco" || last.Kind == "mcu") {
+					id++
+					first := Job{ID: id, Kind: last.Kind, Model: other, Cells: last.Cells, Sink: "tri", Share: true}
+					sc.Groups = append([][]Job{{first}}, sc.Groups...)
+					if len(sc.Groups[len(sc.Groups)-1]) > 1 {
+						sc.Groups[len(sc.Groups)-1] = sc.Groups[len(sc.Groups)-1][:1]
+					}
+				}
+			}
+		}
 		// perturbation: park evaluations (pre = before the value is computed,
 		// post = before it is stored), writes, the batch sender, the consumers
 		mod := pick(r, []uint32{1, 2, 4, 8, 16, 64})
@@ -123,6 +187,9 @@ func planC09(tier string, root *simcore.RNG) *plan {
 			for ji := range sc.Groups[gi] {
 				j := &sc.Groups[gi][ji]
 				j.EvalMod = mod
+				if j.Share && j.Kind != "mcu" {
+					j.EvalMod = 0 // sequential renderers: hand the model object itself to the renderer
+				}
 				heavy += j.Cells * j.Cells * j.Cells
 			}
 		}
@@ -150,8 +217,25 @@ func planC09(tier string, root *simcore.RNG) *plan {
 		}
 		pl.scenarios = append(pl.scenarios, sc)
 	}
-	pl.extra = map[string]any{"signatures": len(cat), "canonical_runs": len(cat)}
-	pl.rule = "signatures (renderer x model x resolution x sink) drawn from uniform/octree marching cubes, uniform/quadtree marching squares, 2D and 3D dual contouring x 8 3D / 5 2D models x ToTriangles/ToSTL/To3MF/ToDXF/ToSVG. Each signature is rendered once canonically (fresh process, fifo, no optional yields, all CPUs); variant episodes (fresh processes) render 1..3 signatures concurrently after 0..3 preceding renders under a seeded schedule (uniform, pct, starve(one slice of the lattice | evaluations about to store | consumer | renderer | one job), burst, lifo) with evaluations parked before and after the real Evaluate, GOMAXPROCS in {1,2,4,16} and CPU affinity in {1,2,4,16} (= worker pool size). Oracle: every job's output digest (triangle sequence bits; STL/DXF/SVG bytes; decoded 3MF) equals the canonical digest of its signature. Non-trivial = a variant episode in which the scheduler had >= 2 choices at >= 1 step; distinct = trace hash."
+	// histories of a program that keeps one renderer value and one model object
+	// and switches the model between its two states with the library's setters
+	for _, p := range pairs {
+		r := root.Fork()
+		j1, j2 := p.a.job(1), p.b.job(2)
+		j1.Share, j2.Share = true, true
+		j1.Sink = "tri"
+		for _, j := range []*Job{&j1, &j2} {
+			if j.Kind == "mcu" {
+				j.EvalMod = 8
+			}
+		}
+		sc := &Scenario{Prop: "C09", Family: "render", Seed: r.Uint64(), Groups: [][]Job{{j1}, {j2}},
+			Sites: map[string]uint32{"eval.pre": 8, "eval.post": 8, "write": 8, "close": 1, "go.start": 1, "cons.tri": 1, "cons.stl": 1, "cons.3mf": 1},
+			Sched: genSched(r, []string{"consumer", "evalpost"}), Env: Env{GOMAXPROCS: pick(r, []int{1, 4, 16}), CPUs: 16}, Note: "setter-history"}
+		pl.scenarios = append(pl.scenarios, sc)
+	}
+	pl.extra = map[string]any{"signatures": len(cat), "canonical_runs": len(cat), "setter_histories": len(pairs)}
+	pl.rule = "signatures (renderer x model x resolution x sink) drawn from uniform/octree marching cubes, uniform/quadtree marching squares, 2D and 3D dual contouring x 8 3D / 5 2D models x ToTriangles/ToSTL/To3MF/ToDXF/ToSVG. Each signature is rendered once canonically (fresh process, fifo, no optional yields, all CPUs); variant episodes (fresh processes) render 1..3 signatures concurrently after 0..3 preceding renders under a seeded schedule (uniform, pct, starve(one slice of the lattice | evaluations about to store | consumer | renderer | one job), burst, lifo) with evaluations parked before and after the real Evaluate, GOMAXPROCS in {1,2,4,16} and CPU affinity in {1,2,4,16} (= worker pool size). A third of the variant episodes, and a fixed set of histories that render both setter-reachable states of a model one after the other, keep renderer values and the model object in an episode-wide pool, as a program that holds them in variables does. Oracle: every job's output digest (triangle sequence bits; STL/DXF/SVG bytes; decoded 3MF) equals the canonical digest of its signature. Non-trivial = a variant episode in which the scheduler had >= 2 choices at >= 1 step; distinct = trace hash."
 	pl.nontriv = func(o *runOut) (bool, string) {
 		if o.res == nil || o.sc.Note == "canonical" {
 			return false, ""
